@@ -230,9 +230,11 @@ theorem C16_set_then_add (var : VarSpec) (s t : Store) (p : Period) (v : Vec)
     | cons _ _ => rfl
   have hweight : ¬ (unitWeight var.defUnit > unitWeight p.unit) := by
     obtain ⟨_, _, _, ⟨h1, h2 | h2 | h2⟩ | ⟨h1, h2 | h2, _⟩ | ⟨h1, h2, _⟩⟩ := hd <;> rw [h1, h2] <;> decide
+  have hpu : ¬ (p.unit = .eternity) := by
+    obtain ⟨_, _, _, ⟨_, h2 | h2 | h2⟩ | ⟨_, h2 | h2, _⟩ | ⟨_, h2, _⟩⟩ := hd <;> rw [h2] <;> decide
   have hsum := C16_add_returns_amount s t subs v (hl ▸ hwf) hdiv
   rw [hl] at hsum
-  simp only [calcAdd, if_neg hweight, if_neg he, hsub, bind, Except.bind, hsubs_ne, hsum]
+  simp only [calcAdd, if_neg hweight, if_neg he, if_neg hpu, hsub, bind, Except.bind, hsubs_ne, hsum]
   rfl
 
 example : ∃ t, setInput (exVar .divide) exStore exRolling [27, 30] = .ok t ∧
@@ -549,5 +551,28 @@ example : (∃ e, setInput ⟨.month, .absent, .num, 1⟩ [] exYear [12] = .erro
     setInput ⟨.month, .absent, .num, 1⟩ [] (exMonth 4) [12] = .ok [(exMonth 4, [12])] ∧
     (∃ e, setInput (exVar .divide) [] Period.eternity [1, 2] = .error e) :=
   ⟨⟨"mismatch", by decide +kernel⟩, by decide +kernel, ⟨"mismatch", by decide +kernel⟩⟩
+
+/-- the refusals of `calculate_add`: a period of a smaller unit than the definition period, an
+eternal variable, an `ETERNITY` period (fix F-C03a; it used to return the integer 0) -/
+theorem C16_add_refusals (var : VarSpec) (s : Store) (p : Period) :
+    (unitWeight var.defUnit > unitWeight p.unit ∨ var.defUnit = .eternity ∨ p.unit = .eternity) →
+      ∃ e, calcAdd var s p = .error e := by
+  intro h
+  unfold calcAdd
+  split
+  · exact ⟨_, rfl⟩
+  · split
+    · exact ⟨_, rfl⟩
+    · split
+      · exact ⟨_, rfl⟩
+      · rename_i h1 h2 h3
+        rcases h with h | h | h
+        · exact absurd h h1
+        · exact absurd h h2
+        · exact absurd h h3
+
+example : (∃ e, calcAdd ⟨.year, .absent, .num, 1⟩ [] Period.eternity = .error e) ∧
+    (∃ e, calcAdd (exVar .divide) [] ⟨.day, ⟨2018, 1, 1⟩, 40⟩ = .error e) :=
+  ⟨⟨"eternal-period", by decide +kernel⟩, ⟨"value", by decide +kernel⟩⟩
 
 end OFCore
